@@ -82,3 +82,23 @@ def _generic_iter_next(eng, m, args, fr, dty):
         return NotImplemented
     v = iter_next(eng, it, fr)
     return NONE() if v is None else Some(v)
+
+
+@model(r'^<(.+) as Default>::default$')
+def _generic_default(eng, m, args, fr, dty):
+    if eng.resolve(m.group(0)) is not None:
+        return NotImplemented
+    from .engine import NONE, mkint, mkbool, Vec, INT_TYPES
+    t = m.group(1).strip()
+    if t.startswith(('std::option::Option<', 'Option<')):
+        return NONE()
+    if t == 'bool':
+        return mkbool(False)
+    if t in INT_TYPES:
+        return mkint(0, t)
+    if t.startswith(('std::string::String', 'String', 'Vec<', 'std::vec::Vec<')):
+        return Vec([])
+    if t.startswith(('HashMap<', 'std::collections::HashMap<', 'HashSet<', 'std::collections::HashSet<', 'BTreeMap<')):
+        from .models_hash import MapV
+        return MapV(is_set='Set' in t.split('<')[0])
+    return NotImplemented
